@@ -4,6 +4,7 @@
     run (C05/Check.v: RC4 and AES-CBC with the per-object keys of Algorithm 1) satisfy this by
     C23's [rc4_spec_involutive] and [cbc_pkcs7_roundtrip_partial]. *)
 From OxVerif Require Import Base.Util C23.Aes C05.EncryptLayer C05.Proofs C05.Check C05.Instances.
+From OxVerif Require Import C23.AesInv C23.AesCbc C05.AesInstance.
 Require Import List NArith. Import ListNotations.
 
 (** object level: the reader's walk inverts the writer's walk; the payload (all strings, the
@@ -97,8 +98,8 @@ Check c05_lib_roundtrip_rc4 : forall iv_of k d, wf_doc d = true ->
   /\ map (fun e => payload (snd e)) (image_doc (real_enc 0) true iv_of k d) = map (fun e => payload (snd e)) d.
 Print Assumptions c05_lib_roundtrip_rc4.
 
-(** ... AES-CBC (AESV2, AESV3) given the AES block inverse law, which C23 has not proved
-    (full statement: the same without the two hypotheses) *)
+(** ... AES-CBC (AESV2, AESV3) given the AES block inverse law (general form; the law itself is C23's
+    [aes_inv], with which the hypotheses are discharged below: [c05_aesv2_instance], [c05_aesv3_instance]) *)
 Theorem c05_aes_instance_partial :
   (forall k b, List.length b = 16%nat -> inv_cipher k (cipher k b) = b) ->
   (forall k b, List.length b = 16%nat -> List.length (cipher k b) = 16%nat) ->
@@ -109,3 +110,33 @@ Check c05_aes_instance_partial :
   (forall k b, List.length b = 16%nat -> List.length (cipher k b) = 16%nat) ->
   forall meth, meth <> 0%N -> forall k id iv x, real_dec meth k id (real_enc meth k id iv x) = Some x.
 Print Assumptions c05_aes_instance_partial.
+
+(** * AES strengths with no cipher hypothesis left (C23's aes_inv) *)
+Theorem c05_aes_instance : forall meth k id iv x,
+  meth <> 0%N -> key_ok (okey meth k id) -> bytes_ok iv = true -> bytes_ok x = true ->
+  real_dec meth k id (real_enc meth k id iv x) = Some x.
+Proof. exact aes_instance_full. Qed.
+Check c05_aes_instance : forall meth k id iv x,
+  meth <> 0%N -> key_ok (okey meth k id) -> bytes_ok iv = true -> bytes_ok x = true ->
+  real_dec meth k id (real_enc meth k id iv x) = Some x.
+Print Assumptions c05_aes_instance.
+
+(** AES-128 (AESV2, 128-bit file key): every object id, IV and byte string *)
+Theorem c05_aesv2_instance : forall k id iv x,
+  List.length k = 16%nat -> bytes_ok iv = true -> bytes_ok x = true ->
+  real_dec 1 k id (real_enc 1 k id iv x) = Some x.
+Proof. exact aesv2_instance. Qed.
+Check c05_aesv2_instance : forall k id iv x,
+  List.length k = 16%nat -> bytes_ok iv = true -> bytes_ok x = true ->
+  real_dec 1 k id (real_enc 1 k id iv x) = Some x.
+Print Assumptions c05_aesv2_instance.
+
+(** AES-256 (AESV3, 256-bit file key) *)
+Theorem c05_aesv3_instance : forall k id iv x,
+  List.length k = 32%nat -> bytes_ok k = true -> bytes_ok iv = true -> bytes_ok x = true ->
+  real_dec 2 k id (real_enc 2 k id iv x) = Some x.
+Proof. exact aesv3_instance. Qed.
+Check c05_aesv3_instance : forall k id iv x,
+  List.length k = 32%nat -> bytes_ok k = true -> bytes_ok iv = true -> bytes_ok x = true ->
+  real_dec 2 k id (real_enc 2 k id iv x) = Some x.
+Print Assumptions c05_aesv3_instance.
